@@ -314,16 +314,28 @@ func (wg *WaitGroup) Go(f func()) {
 // ---------------------------------------------------------------- Cond
 
 type Cond struct {
-	L   Locker
-	gen int
+	L    Locker
+	gen  int
+	real *sync.Cond // pass-through (outside a simulation)
+	mu   sync.Mutex
 }
 
 func NewCond(l Locker) *Cond { return &Cond{L: l} }
 
+func (c *Cond) passthrough() *sync.Cond {
+	c.mu.Lock()
+	defer c.mu.Unlock()
+	if c.real == nil {
+		c.real = sync.NewCond(c.L)
+	}
+	return c.real
+}
+
 //go:norace
 func (c *Cond) Wait() {
 	if !verifrt.Active() {
-		panic("simsync.Cond outside a simulation is not supported")
+		c.passthrough().Wait()
+		return
 	}
 	g := c.gen
 	c.L.Unlock()
@@ -334,10 +346,20 @@ func (c *Cond) Wait() {
 }
 
 //go:norace
-func (c *Cond) Signal() { c.Broadcast() } // a spurious wake-up is always allowed
+func (c *Cond) Signal() {
+	if !verifrt.Active() {
+		c.passthrough().Signal()
+		return
+	}
+	c.Broadcast() // a spurious wake-up is always allowed
+}
 
 //go:norace
 func (c *Cond) Broadcast() {
+	if !verifrt.Active() {
+		c.passthrough().Broadcast()
+		return
+	}
 	c.gen++
 	verifrt.WakeAll(unsafe.Pointer(c))
 }
